@@ -15,7 +15,7 @@ const RECOVERABLE: &[&str] = &["class A { abstract foo(): void; }\nexport defaul
 const FATAL: &[&str] = &["let = ;\n", "function (\n"];
 
 fn run(bin: &str, dir: &str, files: &[String], threads: usize, extra: &[String]) -> (String, String, i32) {
-  let out = Command::new(bin).current_dir(dir).env("RAYON_NUM_THREADS", threads.to_string()).env_remove("RUST_LOG").arg("run").args(extra).args(files).output().expect("run dlint");
+  let out = Command::new(bin).current_dir(dir).env("RAYON_NUM_THREADS", threads.to_string()).env_remove("RUST_LOG").env("RUST_BACKTRACE", "0").env("RUST_LIB_BACKTRACE", "0").arg("run").args(extra).args(files).output().expect("run dlint");
   (String::from_utf8_lossy(&out.stdout).to_string(), String::from_utf8_lossy(&out.stderr).to_string(), out.status.code().unwrap_or(-1))
 }
 
@@ -157,11 +157,24 @@ pub fn run_all(args: &Args) {
       files.insert(at, f);
       out.count("file=named-twice");
     }
+    // one to three files that end the run: unparsable, or not there at all; with several of them the one reported is
+    // the least path, whatever the schedule (repair 4da0839)
+    let mut fatal_names: Vec<String> = vec![];
     if with_fatal {
-      let name = format!("q{}.ts", n);
-      std::fs::write(format!("{}/{}", dir, name), FATAL[crng.below(FATAL.len())]).unwrap();
-      files.push(name);
-      out.count("file=fatal");
+      let k = crng.range(1, 3);
+      for j in 0..k {
+        let name = format!("{}{}_{}.ts", ["q", "A", "zz", "b"][crng.below(4)], n, j);
+        if crng.chance(1, 4) {
+          out.count("file=missing");
+        } else {
+          std::fs::write(format!("{}/{}", dir, name), FATAL[crng.below(FATAL.len())]).unwrap();
+          out.count("file=fatal");
+        }
+        let at = crng.below(files.len() + 1);
+        files.insert(at, name.clone());
+        fatal_names.push(name);
+      }
+      out.count(&format!("fatal-files={}", k));
     }
     let mut extra: Vec<String> = vec![];
     if rule_mode == 1 {
@@ -210,13 +223,21 @@ pub fn run_all(args: &Args) {
       }
     } else if with_fatal && reference.2 != 1 {
       out.found("C19", "exit-status-wrong", &dir, json!({"meta": meta, "status": reference.2, "expected_status": 1}));
+    } else if with_fatal {
+      // the error that ends the run is the one of the least failing path; nothing is reported about the other files
+      let least = fatal_names.iter().min().cloned().unwrap_or_default();
+      let others: Vec<&String> = fatal_names.iter().filter(|f| **f != least).collect();
+      let names_least = reference.1.contains(&least) || reference.1.contains("No such file");
+      if !names_least || others.iter().any(|o| reference.1.contains(o.as_str())) || reference.1.contains("Found ") {
+        out.found("C19", "failure-reported-is-not-the-least-path", &dir, json!({"meta": meta, "least": least, "stderr": reference.1.chars().take(800).collect::<String>()}));
+      }
     }
     // schedule / argument-order independence
     for threads in [2usize, 4, 16] {
       let mut order = files.clone();
       crng.shuffle(&mut order);
       let r = run(BIN, &dir, &order, threads, &extra);
-      let same = if with_fatal { r.2 == reference.2 } else { r == reference };
+      let same = r == reference;
       if !same {
         let kind = if r.2 != reference.2 { "status-depends-on-schedule" } else if r.1.lines().filter(|l| l.starts_with("Found ")).collect::<Vec<_>>() != reference.1.lines().filter(|l| l.starts_with("Found ")).collect::<Vec<_>>() { "count-depends-on-schedule" } else { "output-depends-on-schedule-or-argument-order" };
         out.found("C19", kind, &dir, json!({"meta": meta, "threads": threads, "order": order, "stderr": r.1.chars().take(1500).collect::<String>(), "reference_stderr": reference.1.chars().take(1500).collect::<String>()}));
